@@ -101,28 +101,38 @@ def make_request(crystal, ri, rnd):
                 param=(rnd.random() < 0.0), variant=v)
 
 
-def run_replace(crystal, rq):
+def run_replace(crystal, rq, prev=None, want_obj=False):
+    """prev = (structure object, its K value): continue a chain on the result of an earlier replacement; then
+    rq["sp_atoms"] / rq["rp_atoms"] give the two patterns and rq["id0"] the ids of the new replacement atoms"""
     from mofun import Atoms, replace_pattern_in_structure
     v = rq["variant"]
     s, atol = findops.TOL_CLASSES[v["cls"]]
-    rpdef = [r for r in crystal["rps"] if r["name"] == rq["rp"]][0]
     Q = np.eye(3) if v["Q"] is None else katoms.random_rotation(np.random.default_rng(v["Q"]))
     R = Rendering("r", s, Q)
-    Ks = atoms_to_K(crystal["atoms"], crystal["cell"], 1, 0)
-    n = len(crystal["atoms"])
-    perm = list(range(n))
-    if v["perm"] is not None:
-        random.Random(v["perm"]).shuffle(perm)
-        Ks = dict(Ks, ty=[Ks["ty"][i] for i in perm], q=[Ks["q"][i] for i in perm], pos=[Ks["pos"][i] for i in perm])
-    Ksp = atoms_to_K(crystal["pat"], None, 101, 3)
-    Krp = atoms_to_K(rpdef["atoms"], None, 201, 5, "RP" if rq["param"] else None)
+    if prev is None:
+        rpdef = [r for r in crystal["rps"] if r["name"] == rq["rp"]][0]
+        Ks = atoms_to_K(crystal["atoms"], crystal["cell"], 1, 0)
+        n = len(crystal["atoms"])
+        perm = list(range(n))
+        if v["perm"] is not None:
+            random.Random(v["perm"]).shuffle(perm)
+            Ks = dict(Ks, ty=[Ks["ty"][i] for i in perm], q=[Ks["q"][i] for i in perm], pos=[Ks["pos"][i] for i in perm])
+        Ksp = atoms_to_K(crystal["pat"], None, 101, 3)
+        Krp = atoms_to_K(rpdef["atoms"], None, 201, 5, "RP" if rq["param"] else None)
+    else:
+        Ks = {k: x for k, x in prev[1].items()}
+        n = len(Ks["q"])
+        Ksp = atoms_to_K(rq["sp_atoms"], None, 101, 3)
+        Krp = atoms_to_K(rq["rp_atoms"], None, rq["id0"], 5, None)
     ev = {"kind": "replace", "pre": Ks, "sp": Ksp, "rp": Krp, "found": [], "stub": "no", "fn": rq["fn"], "fd": rq["fd"],
           "replace_all": "yes" if rq["replace_all"] else "no", "ignore": "yes" if rq["ignore"] else "no",
           "post": empty_K(), "count": -1, "exc": "none", "src_same": "yes", "wf": "ok", "rotbound": 1100}
     with contextlib.redirect_stderr(io.StringIO()), contextlib.redirect_stdout(io.StringIO()):
-        st = render(Ks, R)
+        st = render(Ks, R) if prev is None else prev[0]
         jit = 0.0
-        if v["jitter"] is not None:
+        if prev is not None and v["jitter"] is not None:
+            jit = atol / 50.0
+        if prev is None and v["jitter"] is not None:
             jr = np.random.default_rng(v["jitter"])
             d = jr.uniform(-1, 1, size=(n, 3)) * atol / 50.0
             inv = np.linalg.inv(np.array(st.cell))
@@ -179,7 +189,24 @@ def run_replace(crystal, rq):
         ev["post"] = project(new, R, residual_tol=1e-6 if jit == 0.0 else 2.0 * atol / s)
         ev["wf"] = ev["post"]["wf"]
     ev["pre"] = dict(Ks, wf="ok")
+    if want_obj:
+        return ev, (res[0] if res is not None else None)
     return ev
+
+
+def run_chain(crystal, rq):
+    """C08: substitute one element of the pattern in every occurrence, search the original pattern again, substitute
+    back.  Every step is an ordinary observed call judged by Trace_Replace; the second starts from the first's result."""
+    ev1, obj = run_replace(crystal, rq, want_obj=True)
+    out = [(rq, ev1)]
+    if obj is None or ev1["exc"] != "none" or ev1["wf"] != "ok":
+        return out
+    subst = [r for r in crystal["rps"] if r["name"] == "subst"][0]["atoms"]
+    rq2 = dict(rq, rp="back", chain=True, sp_atoms=subst, rp_atoms=crystal["pat"], id0=301, fn=1, fd=1, replace_all=False, ignore=False)
+    rq2["variant"] = dict(rq["variant"], hints=None)
+    ev2 = run_replace(crystal, rq2, prev=(obj, ev1["post"]))
+    out.append((rq2, ev2))
+    return out
 
 
 def run_stubbed(req, vi, sd):
@@ -294,6 +321,12 @@ def _exec_chunk(task):
         for ri in range(nreq):
             rq = make_request(crystal, ri if nreq >= 6 else rnd.randrange(6), rnd)
             out.append((ci, rq, run_replace(crystal, rq)))
+        if ci % 4 == 0:
+            # substitute-and-back chain (C08) on every fourth crystal
+            rq = make_request(crystal, 1, rnd)
+            rq.update(rp="subst", fn=1, fd=1, replace_all=False, ignore=False, chain=True)
+            for rq_i, ev in run_chain(crystal, rq):
+                out.append((ci, rq_i, ev))
     return out
 
 
